@@ -29,6 +29,7 @@
 -/
 import DDProofs.LoadRejected
 import DDProofs.LoadJson2Off
+import DDProofs.UsedExample
 open Std
 namespace DD
 
@@ -116,6 +117,47 @@ example : loadPickle fileF16 true (mgr2 "q" "r") = (.error .value, mgr2 "q" "r")
 example : (loadPickle fileDangling true (mgr2 "y" "x")).1 = .error .value ∧
     (loadPickle fileDangling true (mgr2 "y" "x")).2.tbl.vars.toList = [("x", 1), ("y", 0)] := by
   decide +kernel
+
+/-! ### a USED receiving manager: `usedM` (four variables declared c, a, d, b; thirteen nodes;
+the user holds `a ∧ b` once and the four-variable node 13 twice) and a file in ANOTHER order
+(d < b < a < c) whose last node names a successor (9) that is not in the file -/
+
+def fileBadUsed : PickleFile :=
+  { vars := [("d", 0), ("b", 1), ("a", 2), ("c", 3)]
+    succ := [⟨1, 4, none, none⟩, ⟨2, 3, some (-1), some 1⟩, ⟨3, 2, some (-1), some 2⟩,
+             ⟨4, 1, some 3, some 2⟩, ⟨5, 0, some (-4), some 9⟩]
+    roots := .list [5, -3] }
+
+def jsonBadUsed : JsonFile :=
+  { levelOfVar := [("d", 0), ("b", 1), ("a", 2), ("c", 3)]
+    roots := .dict [("r", 5), ("s", -3)]
+    nodes := [⟨2, 3, -1, 1⟩, ⟨3, 2, -1, 2⟩, ⟨4, 1, 3, 2⟩, ⟨5, 0, -4, 9⟩] }
+
+/-- `levels=False`: `KeyError` after three nodes of the file were built (15, 16, 17) in the order
+of the MANAGER; the thirteen old nodes and the user's counts (node 4: 1, node 13: 2) are what
+they were; `levels=True`: refused by the pre-check (`ValueError`), nothing changed -/
+example : (loadPickle fileBadUsed false usedM).1 = .error .key ∧
+    (loadPickle fileBadUsed false usedM).2.tbl.succ.keys =
+      [2, 3, 4, 5, 6, 7, 8, 9, 10, 11, 12, 13, 14, 15, 16, 17] ∧
+    (loadPickle fileBadUsed false usedM).2.ref[4]? = some 1 ∧
+    (loadPickle fileBadUsed false usedM).2.ref[13]? = some 2 ∧
+    (loadPickle fileBadUsed true usedM).1 = .error .value ∧
+    (loadPickle fileBadUsed true usedM).2.tbl.vars.toList = [("a", 1), ("b", 3), ("c", 0), ("d", 2)] ∧
+    (loadPickle fileBadUsed true usedM).2.tbl.succ.keys = usedM.tbl.succ.keys := by decide +kernel
+
+example : LoadLeaves fileBadUsed false usedM (loadPickle fileBadUsed false usedM).2 ∧
+    RefExact (loadPickle fileBadUsed false usedM).2 usedExt :=
+  have h := C17_load_rejected fileBadUsed false usedM usedM_good.inv usedM_good.ctx
+  ⟨h, h.counts usedExt usedM_good.exact⟩
+
+/-- the JSON reader on the same content: `KeyError` at the fourth node line; every reference the
+shelf and the temporaries held has been given back — the counts are those of the pickle run -/
+example : (loadJson jsonBadUsed false usedM).1 = .error .key ∧
+    (loadJson jsonBadUsed false usedM).2.ref.toList = (loadPickle fileBadUsed false usedM).2.ref.toList := by
+  decide +kernel
+
+example : JsonLeaves usedExt usedM (loadJson jsonBadUsed false usedM) :=
+  C17_load_json_rejected jsonBadUsed usedM usedExt usedM_good
 
 /-! ### files whose own levels are not a permutation of `0..n-1`
 
